@@ -46,4 +46,32 @@ PROPS = {
         "scope": "internal/linker/linker.go: accurateFinalByteCount vs substituteFinalPaths, breakOutputIntoPieces modelled; metafile JSON assembly reached by the search only",
         "assumptions": [],
     },
+    "C03": {
+        "lean_modules": ["EsbuildModel.Props.C03"],
+        "theorems": [
+            "EsbuildModel.C03.toInt32_correct",
+            "EsbuildModel.C03.toUint32_correct",
+        ],
+        "open": ["Simplify.unused_equiv: FALSE for unused object literals with computed keys (known finding c03-unused-computed-key)"],
+        "gen_facts": [],
+        "kernels": [("toint32", 30000, 1500000)],
+        "searches": [("c03-prog", 500, 40000)],
+        "scope": "internal/js_ast/js_ast_helpers.go: ToInt32/ToUint32 modelled on exact dyadic values; all other minifier rewrites are reached by the Node differential search only",
+        "assumptions": ["math.Mod and float->int truncation are exact (IEEE-754)", "generated programs exclude the documented minifier assumptions by construction (gen/js.go header)"],
+    },
+    "C14": {
+        "lean_modules": ["EsbuildModel.Props.C14"],
+        "theorems": [
+            "EsbuildModel.C14.es_monotone",
+            "EsbuildModel.C14.overrides_both_ways",
+            "EsbuildModel.C14.every_feature_listed",
+            "EsbuildModel.C14.features_fit",
+        ],
+        "gen_facts": ["CompatTable.lean"],
+        "kernels": [("compat", 5000, 200000)],
+        "searches": [("c14-scan", 300, 20000)],
+        "binaries": ["hscan"],
+        "scope": "internal/compat: compareVersions, isVersionSupported, UnsupportedJSFeatures, ApplyOverrides over the table regenerated from js_table.go; the lowering passes themselves are reached by the feature-scanner search only",
+        "assumptions": ["the feature scanner (harness/cmd/hscan) relies on esbuild's own parser to build the AST it walks"],
+    },
 }
